@@ -87,7 +87,7 @@ def sessions_of(out):
 
 def robust_case(s, att):
     n = len(att)
-    failed = [(i < n - 1) or ("exc" in s) for i in range(n)]
+    failed = [bool(a.get("raised", (i < n - 1) or ("exc" in s))) for i, a in enumerate(att)]   # LinAlgError seen at the seam (injected or real)
     drops = [att[i]["nX"] - att[i + 1]["nX"] if i < n - 1 else 1 for i in range(n)]
     drops = [max(d, 0) for d in drops]
     code = "None" if "exc" in s else f"(Some {cz(s['ret'])})"
@@ -259,8 +259,9 @@ def tie(ctx, broken):
             c, s, att = case_src[bad[0]]
             broken.append(("correspondence:_robust_gp_fit_", f"session differs from Model/FitRetry.v: cfg={c} session={s} attempts={att}"))
             if not any(v["concrete"] for v in ctx.violations):
+                # a model-level restatement, not a clause of the property's text: never a CONCRETE violation (the search decides)
                 ctx.violate("controller-differs", f"_robust_gp_fit_ in run {c} behaved unlike the model: session {s}, attempts {att}",
-                            dict(kind="faulted_run", cfg=c))
+                            dict(kind="faulted_run", cfg=c), concrete=False)
         else:
             broken.append(("correspondence:_robust_gp_fit_", "case evaluation failed: " + log[-300:]))
     okc, bad, log = core.run_cases("C16init", REQUIRES, INIT_TY, INIT_OK, init_cases, shard=max(50, len(init_cases) // 6 + 1))
